@@ -34,3 +34,14 @@ Theorem C16_order_total_preorder :
   (forall a b c, cmpk a b <= 0 -> cmpk b c <= 0 -> cmpk a c <= 0).
 Proof. exact (conj cmpk_antisym cmpk_le_trans). Qed.
 Print Assumptions C16_order_total_preorder.
+
+(* Tie T: the same soundness statement for the pruner built from the operator
+   tables that go2coq translates from the Go source on every run
+   (reverseComparator, rangePrunerPred). *)
+From ZV Require Import Gen.OptimizerGen Proofs.PrunerGenProofs.
+Theorem C16_pruner_sound_translated :
+  forall (oth : nat -> key -> tv) p mn mx k,
+    cmpk mn k <= 0 -> cmpk k mx <= 0 ->
+    prune_gen p mn mx = true -> is_true (eval oth p k) = false.
+Proof. exact pruner_sound_translated. Qed.
+Print Assumptions C16_pruner_sound_translated.
